@@ -542,6 +542,18 @@ def clade_family_input(rng, no, ns, nf, ordered=False):
     return d
 
 
+def simulated_inputs(rng, n, no_max, ns_max, nf, ordered, min_leaves=3):
+    """n inputs from the forward simulator of the event model (dp_common.simulated_input)."""
+    out = []
+    tries = 0
+    while len(out) < n and tries < 50 * n:
+        tries += 1
+        d = D.simulated_input(rng, no_max, rng.randint(2, ns_max), nf, ordered)
+        if d is not None and len(d["leafmap"]) >= min_leaves:
+            out.append(d)
+    return out
+
+
 def many_family_input(rng, no, ns, nf, ordered=True):
     """Few leaves, many families (one common order): bit masks beyond one byte."""
     d = D.random_plain_input(rng, no, ns)
